@@ -314,7 +314,24 @@ def rule_decoder_state(ctx):
 
 def rule_direction_flags(ctx):
     from . import _http_lists as HL
-    HL.direction_flags(ctx, ctx.program, "R4", "http2_process")
+    P = ctx.program
+    HL.direction_flags(ctx, P, "R4", "http2_process")
+    HL.exclusive_pushes(ctx, P, "R4", "huginn_net_http::http2_process::convert_http2_headers_to_http_format")
+    HL.split_literals(ctx, P, "R3", P.method1(H2, "parse_request"), "http2:parse_request")
+    # HPACK state is continuous within one message: every fragment is decoded with the parser's own decoder (re-created once per
+    # message in build_stream), never with a decoder made for the fragment
+    b = P.method1(H2, "parse_headers_payload")
+    S = T.Slicer(b, P)
+    dec = [(blk, t) for blk, t in b.calls() if callee_of(t).endswith(("Decoder::<'a>::decode", "Decoder::decode"))]
+    okd = bool(dec)
+    for blk, t in dec:
+        a = Q.call_args(b, S, blk, t)
+        if not any(x[0] == "field" and x[2] == "hpack_decoder" for x in T.walk(a[0])) or T.has_call(a[0], "Decoder::<'a>::new") or T.has_call(a[0], "Decoder::new"):
+            okd = False
+    fresh = [blk for blk, t in b.calls() if callee_of(t).endswith(("Decoder::<'a>::new", "Decoder::new"))]
+    ctx.check(okd and not fresh, "R2", "parse_headers_payload:decoder-continuity", "fragments are decoded with the parser's decoder",
+              "a header block fragment is decoded with a decoder created for that fragment: entries an earlier fragment (HEADERS) added to the dynamic table are unknown when a later "
+              "fragment (CONTINUATION) refers to them", ctx.loc(b, fresh[0]) if fresh else ctx.loc(b))
 
 
 def rule_first_separator(ctx):
